@@ -314,6 +314,15 @@ func execVec5(c *v5Case) []string {
 			lines = append(lines, fmt.Sprintf("op node %s %d %s %s %d ; %s ; %s => ok", kind, st.cmd.K, core.Hex32(0), core.IDs(st.cmd.Filter), id, outTok(nres, nerr), nodeVTok(kind, st.cmd, id)))
 		}
 	}
+	var deferred []func()
+	nsearch := 0
+	runDeferred := func() {
+		d := deferred
+		deferred = nil
+		for _, f := range d {
+			f()
+		}
+	}
 	for _, cmd := range c.Cmds {
 		switch cmd.Op {
 		case "add":
@@ -332,17 +341,31 @@ func execVec5(c *v5Case) []string {
 			}
 			lines = append(lines, fmt.Sprintf("op add %d %s => %s", cmd.ID, core.VecHex(v), out))
 			replayStale(cmd.ID)
+			runDeferred()
 		case "remove":
 			out := outcomes(func(kind string) error { return idx[kind].Remove(*comet.NewVectorNodeWithID(cmd.ID, nil)) })
 			lines = append(lines, fmt.Sprintf("op remove %d => %s", cmd.ID, out))
 			replayStale(cmd.ID)
+			runDeferred()
 		case "flush":
 			out := outcomes(func(kind string) error { return idx[kind].Flush() })
 			lines = append(lines, "op flush => "+out)
+			runDeferred()
 		case "search":
 			q := core.FromBits(cmd.Qs[0])
 			thr := threshold(cmd, q)
+			nsearch++
 			for _, kind := range v5Kinds {
+				if nsearch%3 == 0 {
+					// the search object is built now and executed only after the next Add / Remove /
+					// Flush: it must answer from the index as it is when Execute runs
+					sb, cmd, thr, q, kind := build(kind, cmd, thr, [][]float32{q}, nil, ""), cmd, thr, q, kind
+					deferred = append(deferred, func() {
+						res, err := sb.Execute()
+						lines = append(lines, fmt.Sprintf("op search %s %d %s %s q %s => %s", kind, cmd.K, core.Hex32(thr), core.IDs(cmd.Filter), core.VecHex(q), outTok(res, err)))
+					})
+					continue
+				}
 				res, err := search(kind, cmd, thr, [][]float32{q}, nil, "")
 				lines = append(lines, fmt.Sprintf("op search %s %d %s %s q %s => %s", kind, cmd.K, core.Hex32(thr), core.IDs(cmd.Filter), core.VecHex(q), outTok(res, err)))
 			}
@@ -445,6 +468,7 @@ func execVec5(c *v5Case) []string {
 			}
 		}
 	}
+	runDeferred()
 	return append(lines, "end")
 }
 
